@@ -5,6 +5,7 @@ import (
 	"encoding/hex"
 	"fmt"
 	"os"
+	"runtime/metrics"
 	"strings"
 
 	wire "github.com/jeroenrinzema/psql-wire"
@@ -12,27 +13,51 @@ import (
 
 func init() { runners["C20"] = runC20 }
 
-func ppObserve(q []byte) (n int, panicked bool) {
+var allocSample = []metrics.Sample{{Name: "/gc/heap/allocs:bytes"}}
+
+func heapAllocs() uint64 {
+	metrics.Read(allocSample)
+	return allocSample[0].Value.Uint64()
+}
+
+// ppObserve calls the real ParseParameters: length of the result (-1 if an OID is not 0),
+// whether it panicked, and the bytes it allocated (runtime/metrics, cumulative heap allocations).
+func ppObserve(q []byte) (n int, panicked bool, alloc uint64) {
+	a0 := heapAllocs()
 	defer func() {
 		if r := recover(); r != nil {
 			panicked = true
 		}
+		alloc = heapAllocs() - a0
 	}()
 	res := wire.ParseParameters(string(q))
 	for _, o := range res {
 		if o != 0 {
-			return -1, false
+			return -1, false, 0
 		}
 	}
-	return len(res), false
+	return len(res), false, 0
+}
+
+// hostile placeholder texts: what a client can put into a Query/Parse message to make the
+// statement parser's call of ParseParameters expensive
+func hostileQueries() []string {
+	return []string{"select $5", "$65535", "$65536", "$70000", "$1000000", "$99999999", "$2147483647", "$2147483648", "$4294967296",
+		"$9223372036854775807", "$9223372036854775808", "select $99999999999999999999", "$123456789012345678901234567890",
+		strings.Repeat("?", 70000), "$3" + strings.Repeat("?,", 66000), strings.Repeat("$1", 40000), strings.Repeat("$65535,", 3000)}
+}
+
+func emitPP(c *runCfg, id int, class string, q []byte) {
+	setInflight("(c20 " + class + " " + sx("q", q) + ")")
+	n, p, a := ppObserve(q)
+	c.out.line(sx("c20", id, class, sx("q", q), sx("len", n), sx("panic", p), sx("alloc", int(a))))
+	c.stat("class_" + class)
 }
 
 func runC20(c *runCfg) error {
 	id := 0
 	emit := func(class string, q []byte) {
-		n, p := ppObserve(q)
-		c.out.line(sx("c20", id, class, sx("q", q), sx("len", n), sx("panic", p)))
-		c.stat("class_" + class)
+		emitPP(c, id, class, q)
 		id++
 	}
 	if c.replay != "" {
@@ -63,6 +88,9 @@ func runC20(c *runCfg) error {
 	for _, s := range []string{"select $5", "select $99999999999999999999", "$$1", "$1$2", "?$", "$0", "$01", "", "$65536", "$65535", "$65534",
 		"$9223372036854775807", "$9223372036854775808", "١ $١ ?", "$1?$3?", "??$1", "$3 ? ?"} {
 		emit("corpus", []byte(s))
+	}
+	for _, s := range hostileQueries() {
+		emit("hostile", []byte(s))
 	}
 	// exhaustive: all strings of length <= L over a 6 letter alphabet
 	alpha := []byte("$?019a")
